@@ -29,7 +29,7 @@ func tomlMarshalStream(vs []any) ([]byte, error) {
 	return buf.Bytes(), nil
 }
 
-var tomlRE = regexp.MustCompile(`(?m)^(\+\+\+|---)$`)
+var tomlRE = regexp.MustCompile(`(?m)^(\+\+\+|---)\r?$`)
 
 func tomlUnmarshalStream(in []byte) ([]any, error) {
 	parts := tomlRE.Split(string(in), -1)
